@@ -117,6 +117,16 @@ theorem compressed_file_size_from_name (f : BR.Load.DirFile) (p : BR.Load.Parsed
   refine ⟨_, by unfold BR.Load.scanOne; rw [hp]; rfl, ?_⟩
   simp [hn]
 
+/-- **an interrupted overwrite wins at restart** (F22): two files for one key, the complete
+acknowledged one (older access time) and the torn one of the interrupted upload (newer): the loader
+indexes the torn file and hands the complete one to the remover -/
+example :
+    let old : BR.Load.Scanned := ⟨"cas/k", ⟨100, 60, "old", false⟩, 10⟩
+    let torn : BR.Load.Scanned := ⟨"cas/k", ⟨100, 45, "new", false⟩, 20⟩
+    let r := BR.Load.loadSorted 1048576 0 [old, torn]
+    (BR.Load.pairs r.1).map (fun p => p.2.random) = ["new"] ∧ r.1.queue.map (fun p => p.2.random) = ["old"] := by
+  decide
+
 #print axioms interrupted_compressed_upload_absent_or_complete
 #print axioms completed_upload_served_identically
 #print axioms restart_on_any_image
